@@ -360,4 +360,25 @@ theorem history_pure (st : Store) (calls : List (Nat × Nat)) :
     rw [hc]
     simp [ih.1, ih.2]
 
+/-- **all four slots or no claim**: with a serialization attribute, slot filling succeeds exactly when every one of the four
+    designated fields is filled, and then the slots are those four values — a slot that cannot be filled (its field is
+    missing from the document) fails the whole build, whichever of the four it is and whatever the others do -/
+theorem parseSlots_all_or_nothing (attr : String) (fields : List (String × Nat)) (p : SlotPaths)
+    (hattr : attr ≠ "") (hp : parseSer attr = .ok p) :
+    (∀ a b c d, parseSlots attr fields = .ok ((a, b, c, d), true) ↔
+      (fillSlot fields p.indexA = .ok a ∧ fillSlot fields p.indexB = .ok b ∧
+       fillSlot fields p.valueA = .ok c ∧ fillSlot fields p.valueB = .ok d)) ∧
+    ((∃ e, fillSlot fields p.indexA = .error e) ∨ (∃ e, fillSlot fields p.indexB = .error e) ∨
+      (∃ e, fillSlot fields p.valueA = .error e) ∨ (∃ e, fillSlot fields p.valueB = .error e) →
+      ∃ e, parseSlots attr fields = .error e) := by
+  unfold parseSlots
+  simp only [hattr, if_false, hp]
+  constructor
+  · intro a b c d
+    cases h1 : fillSlot fields p.indexA <;> cases h2 : fillSlot fields p.indexB <;>
+      cases h3 : fillSlot fields p.valueA <;> cases h4 : fillSlot fields p.valueB <;> simp
+  · intro h
+    cases h1 : fillSlot fields p.indexA <;> cases h2 : fillSlot fields p.indexB <;>
+      cases h3 : fillSlot fields p.valueA <;> cases h4 : fillSlot fields p.valueB <;> simp_all
+
 end Gsp.Props.C05
